@@ -1,4 +1,5 @@
 //! C12-a: version selection of the handshake (`select_protocol_version`), all u32 x u32 x bool.
+#![cfg(any(verif_unit = "all", verif_unit = "acceptor", verif_unit = "acceptor_t"))]
 #![allow(dead_code, unused_imports, missing_debug_implementations, missing_docs, unreachable_pub, unnameable_types)]
 use super::select_protocol_version;
 use aldrin_core::ProtocolVersion;
@@ -24,6 +25,7 @@ fn q_c12_select_protocol_version() {
     kani::cover!(got.is_none() && major == 1);
 }
 
+#[cfg(any(verif_unit = "all", verif_unit = "acceptor_t"))]
 #[kani::proof]
 #[kani::should_panic]
 fn t_c12_select_protocol_version_twin() {
